@@ -164,7 +164,7 @@ func initDenied(path string) bool {
 		return true
 	}
 	if strings.HasPrefix(path, "internal/") || strings.HasPrefix(path, "runtime/") ||
-		strings.HasPrefix(path, "vendor/") || strings.HasPrefix(path, "crypto/internal/") {
+		strings.HasPrefix(path, "crypto/internal/") {
 		return path != "internal/stringslite" && path != "internal/itoa"
 	}
 	return false
